@@ -33,4 +33,34 @@ CHECKS = {
         "note": ASSUME % "T4, T8, T9",
         "technique": "static analysis: select!-DSL facts + reaching assignments of the idle flag + abstract interpretation of the loop",
     },
+    "C01": {
+        "text": "Assume/guarantee over the one bounded tokio channel: an envelope is queued exactly once iff its send returned Ok (axiom). Decided for every path and feature set: each envelope construction boxes the message parameter, embeds self.clone() and flows into exactly one waiting send on self.sender, outside loops and dominating every return; Error::Send only on the failing outcome of that send; no stray enqueue; in-band stop marker; the loop calls handle_message exactly once per dequeued Envelope with that envelope's fields and awaits it to completion before the next select!; PayloadHandler calls Message::handle once on every path with *self; single consumer of the mailbox Receiver; every queued message owns an ActorRef and the loop stores no strong handle across the select!, so termination cannot overtake queued work. Holds for all schedules because no obligation mentions a schedule.",
+        "note": ASSUME % "T1, T2, T4, T5, T9",
+        "technique": "static analysis: provenance of envelope constructions and channel operations (who-may-call), dominance on send functions and on the lifecycle loop, coroutine-layout ownership",
+    },
+    "C02": {
+        "text": "Order preservation reduces (tokio FIFO axiom) to: one queue, direct enqueue in caller program order, inline handling. Decided: exactly one bounded mailbox channel whose halves go to ActorRef::new / the lifecycle, every ActorRef construction inherits that sender, no unbounded/second channel, mailbox Sender used only via send/blocking_send each consuming a message built in the same body, no spawned task/thread sends except the blocking timeout helpers whose caller waits for the helper result on every path, one recv site, handler awaited inline before the next select!, stop marker in-band.",
+        "note": ASSUME % "T1, T4, T9",
+        "technique": "static analysis: who-may-call on channel constructors/methods and task spawns, provenance of channel halves, dominance",
+    },
+    "C03": {
+        "text": "Reply integrity by provenance: per-call oneshot, its sender inside the same envelope aggregate as the message, its receiver the only thing waited on after the send, downcast to the handler's Reply type, Ok value returned unchanged; the single oneshot send of the crate sends Box::new(value of the single Message::handle call) on the envelope's own channel. No hang: failing outcomes of send / reply wait reach `return Err` without suspension, loop or blocking call; both receivers are owned by the lifecycle coroutine family and never moved out or leaked, so every exit (incl. unwinding) drops queued envelopes and their oneshot senders (tokio/ownership axioms). ask_join shape decided by provenance.",
+        "note": ASSUME % "T1, T3, T9",
+        "technique": "static analysis: value provenance through await/?/map_err, reachability from failure arms, move/ownership scan, zero-count who-may-call (forget/leak)",
+    },
+    "C09": {
+        "text": "With tokio's bounded-channel axiom the bound is the number given to mpsc::channel: decided that it is exactly the mailbox_capacity parameter (no arithmetic/max/constant), guarded by `> 0` with a panicking else edge, that spawn passes CONFIGURED.get().copied().unwrap_or(32) unchanged, that set_default_mailbox_capacity's full decision table is (0 => Err without write; n => OnceLock::set(n) decides) and nothing else writes the OnceLock, and that every enqueue (stop marker included) is a waiting send on that one channel; no unbounded channel.",
+        "note": ASSUME % "T1, T7, T8",
+        "technique": "static analysis: argument provenance, guard dominance, decision table of the validator, who-may-call",
+    },
+    "C10": {
+        "text": "All 4 tokio::time::timeout sites: duration is exactly the API's Duration parameter (through closure/coroutine captures), future is exactly the whole base operation tell/ask(self|self.clone(), msg), awaited in place; Error::Timeout only in Elapsed closures passed to map_err on that await, with the same Duration; after `?` the inner Result is returned unchanged (other failures reported as themselves); is_retryable decided over all variants. Not decided: returning *at* the deadline (timer accuracy / scheduling) - runtime quantity.",
+        "note": ASSUME % "T1, T5, T7, T8",
+        "technique": "static analysis: argument provenance across captures, `?`/map_err value flow, decision table",
+    },
+    "C13": {
+        "text": "Pairing rule over every Error::Send/Timeout/Receive construction (all feature sets): conditioned on exactly the matching failure, control-equivalent with exactly one dead_letter::record::<M> with matching reason, message type, self.identity() and API label, and reaching the function result; every record is paired (so none on success, none twice through wrappers); record() does one fetch_add(1) on every path and the counter has no other writer. Four infrastructure Error::Send sites are frozen exceptions.",
+        "note": ASSUME % "T1, T3, T5, T7, T8",
+        "technique": "static analysis: control-equivalence (dominators/post-dominators) pairing of error constructions and record calls, failure-condition classification, who-may-call on the counter",
+    },
 }
